@@ -83,6 +83,7 @@ ENGINES = [
  ('normalize', 'vp/normalize.py', 'behaviour-preserving normal form of the parsed program (helper inlining, constant and copy propagation)'),
  ('pathsum', 'vp/pathsum.py', 'path-sensitive effect summaries over a term domain (abstract interpretation, no solver)'),
  ('reassembly', 'vp/reassembly.py', 'linear loop invariants for byte accounting'),
+ ('memo', 'vp/memo.py', 'memoisation census and key-coverage analysis (a remembered answer must be determined by its key)'),
 ]
 
 USES = {
@@ -96,6 +97,7 @@ USES = {
  'pathsum': ['C01', 'C02', 'C03', 'C05', 'C06', 'C09', 'C10', 'C11', 'C13',
              'C14', 'C15', 'C16', 'C17', 'C18', 'C19', 'C20'],
  'reassembly': ['C01', 'C03', 'C15'],
+ 'memo': 'ALL',
 }
 
 
